@@ -1,13 +1,45 @@
+(* C19 rep_verified_before_blk: in one iteration of the sync loop (Array/SyncModel.sync_stripe) a REP or CHG block
+   becomes BLK only if it was read in that iteration and its hash compared equal (REP) or was computed and stored (CHG);
+   a REP block whose data does not hash to the inherited value counts an error, the stripe is not completed and no
+   parity is written for it. *)
 From Coq Require Import NArith ZArith List Bool Arith Lia.
 From Snap.Array Require Import ArrayDefs SyncModel.
-From Snap.Scan Require Import ScanModel ScanBasics ScanSteps ScanInv.
+From Snap.Scan Require Import ScanBasics ScanSound.
 Import ListNotations.
-Local Arguments alloc_block : simpl never.
-Goal forall clearpast inf occ bl ff del b,
-    In b (snd (alloc_blocks clearpast inf occ ff del bl)) -> fb_state b <> SBlk.
+
+Lemma hval_eqb_true a b : hval_eqb a b = true <-> a = b.
 Proof.
-  intros clearpast inf occ bl.
-    induction bl as [|b0 t IH]; simpl; intros ff del b H; [destruct H|].
-    destruct (alloc_block clearpast inf occ ff del b0) as [[ff1 del1] nb] eqn:E1.
-    destruct (alloc_blocks clearpast inf occ ff1 del1 t) as [[ff2 del2] rest] eqn:E2. simpl in H.
-    Show.
+  destruct a, b; simpl; split; intro H; try discriminate; try reflexivity.
+  - apply N.eqb_eq in H. congruence.
+  - inversion H. apply N.eqb_refl.
+Qed.
+
+Section Stripe.
+  Variable hashf : bid -> N -> hval.
+  Variable bs : N.
+  Variable nlev : nat.
+  Variable o : sopts.
+  Variable iob : nat.
+
+  Notation step := (disk_step hashf bs o iob).
+
+  Definition good (a : acc) : Prop := a_bail a = false /\ a_err a = false /\ a_io a = false.
+
+  (* the outcome of one disk does not stop the stripe *)
+  Definition benign (x : nat * slot * rd) : Prop :=
+    match x with
+    | (_, SFile f idx b, r) =>
+        match r with
+        | RdOk blk len => fb_state b = SRep -> hashf blk len = fb_hash b
+        | RdNone => True
+        | _ => False
+        end
+    | _ => True
+    end.
+
+  Lemma step_good_back a x : good (step a x) -> good a /\ benign x.
+  Proof.
+    destruct x as [[j s] r]. unfold good, disk_step. destruct (a_bail a) eqn:Eb.
+    - intros [H _]. congruence.
+    - destruct s as [|f idx b|h]; simpl.
+      + Show. 
